@@ -203,7 +203,7 @@ def case_to_json(case):
 
 
 def write_replay(pid, v):
-    d = os.path.join(VERIF, "replays", pid)
+    d = os.path.join(os.environ.get("VERIF_REPLAY_DIR", os.path.join(VERIF, "replays")), pid)
     os.makedirs(d, exist_ok=True)
     body = {"property": pid, "sig": v["sig"], "case_repr": repr(v["case"]), "case": case_to_json(v["case"]),
             "expected": v["expected"], "observed": v["observed"], "note": v.get("note", ""),
